@@ -226,5 +226,7 @@ class SelectEventLoop(EventLoop):
 
         self.logger.debug("Processing input")
         for record in ready:
+            if self._watch_files.get(record.fileobj) is not record.data:
+                continue  # removed (or replaced) by a callback that ran earlier in this batch
             record.data()
             self._did_something = True
